@@ -108,18 +108,18 @@ PROPS = {
         "one evaluation = one seeded world (router, token types, policy) running 40-80 actor steps: obtain tokens, exchange (subject kind x actor kind x declared type x requested type x scopes x caller x presentation), "
         "revoke, logout, clock jumps, policy changes (default type, veto, impersonation, dropped scopes). non-trivial = at least one exchange succeeded; distinct = distinct step history",
         {"runs": 40, "wall": 90}, {"runs": 8000, "wall": 1200},
-        {"quick": {"_runs": 400, "exchange-success": 300}, "thorough": {"_runs": 20000}},
+        {"quick": {"_runs": 400, "exchange-success": 300, "veto-at-ValidateTokenExchangeRequest": 20, "veto-at-CreateTokenExchangeRequest": 15, "veto-at-GetPrivateClaimsFromTokenExchangeRequest": 5, "veto-at-SetUserinfoFromTokenExchangeRequest": 3}, "thorough": {"_runs": 20000}},
         "Seeded exploration; every 2xx exchange implies an authenticated, registered client, live subject/actor tokens of the declared type, no veto, a non-empty token of the declared kind that is live at the provider and carries the subject, scopes and actor the journal shows the policy decided.",
         "DESIGN.md section 4 C15"),
     "C09": dict(flow(
         "W-fault",
         "deterministic simulation with fault enumeration: (a) a fixed catalogue of malformed requests, crafted tokens, hostile provider answers and JSON documents is run completely against the real provider (both routers), the client helpers and the decoders; (b) storage-fault sweeps - every storage-call position of 27 flows on both routers fails once - judged by the answers-once rules (one response, no panic, no storage call after an error answer)",
         "one evaluation = one seeded world (router, algorithm, token types, capabilities, user-code configuration incl. degenerate ones) x the complete catalogue: ~3150 server requests (42 token payloads x 2 overlays x 12 token sinks, broken token shapes, "
-        "10 malformed Basic headers x 10 grant types x 4 endpoints, 10 malformed bodies, 14 routes x 7 methods x 10 queries, 150 seeded mutations), ~1730 faulty-peer answers to 18 client helpers, ~1750 decoder/verifier inputs. "
+        "10 malformed Basic headers x 10 grant types x 4 endpoints, 10 malformed bodies, 14 routes x 7 methods x 10 queries, 150 seeded mutations), ~1730 faulty-peer answers to 18 client helpers, ~1750 decoder/verifier inputs, and ~230 requests with genuine tokens, ID tokens and codes of two clients after their lifetimes have passed (clock advance). "
         "One world in four is a catalogue world; the other three are fault sweeps of one (flow, router) pair each. distinct non-trivial = distinct (router, case) executed plus distinct world configurations",
         {"runs": 6, "wall": 120}, {"runs": 600, "wall": 1500},
         {"quick": {"_runs": 96, "server-cases": 60000, "client-cases": 30000, "decoder-cases": 30000, "server-error-answers": 30000, "client-errors-returned": 20000, "keyset-child-cases": 1500,
-                   "fault-sweep-worlds": 60, "fault-sweep-cases": 500},
+                   "fault-sweep-worlds": 60, "fault-sweep-cases": 500, "clock-advanced-for-aged-tokens": 40},
          "thorough": {"_runs": 6000, "fault-sweep-cases": 100000}},
         "Fault enumeration over a stated catalogue (complete per world) plus seeded mutation: no handler, helper, verifier or decoder may panic; a recorder counts response headers and the storage journal shows whether a handler went on after answering with an error.",
         "DESIGN.md section 4 C09", level="fault_enumeration",
@@ -164,11 +164,11 @@ PROPS = {
         "DESIGN.md section 4 C17"),
     "C06": flow(
         "W-flows",
-        "deterministic simulation: every token response of seeded multi-flow runs (code, implicit, refresh, device, client_credentials, jwt-bearer, token-exchange) under rotating keys, clock skew and a frozen clock is re-verified with the library's own verifiers and compared with the stored grant",
+        "deterministic simulation: every token response of seeded multi-flow runs (code, implicit, refresh, device, client_credentials, jwt-bearer, token-exchange) under rotating keys (between requests and, as an environment event, right before the k-th storage call of a request; within and across algorithm families), clock skew and a frozen clock is re-verified with the library's own verifiers and compared with the stored grant",
         "one evaluation = one seeded world (router, one of 8 signing algorithms, per-client token type/skew/lifetime/assertion flag, colliding custom claims) running 25-50 steps over 7 flows plus key rotation and clock advance. "
         "non-trivial = id tokens and access tokens were both checked; distinct = distinct step history",
         {"runs": 40, "wall": 90}, {"runs": 8000, "wall": 1200},
-        {"quick": {"_runs": 400, "id-tokens-checked": 8000, "access-tokens-checked": 8000}, "thorough": {"_runs": 20000}},
+        {"quick": {"_runs": 400, "id-tokens-checked": 8000, "access-tokens-checked": 8000, "rotation-in-mid-request": 500, "signed-with-key-rotated-in-mid-request": 300}, "thorough": {"_runs": 20000}},
         "Seeded exploration with exact-time oracles (the simulated clock is frozen during a request): signing key, rp.VerifyTokens against the published JWKS over simnet, iss/aud/azp/sub/nonce/auth_time/amr, iat and exp equalities, at_hash/c_hash, user claims only for granted scopes, opaque tokens decrypt only with the provider key, expires_in/scope equal the stored values.",
         "DESIGN.md section 4 C06"),
     "C14": flow(
@@ -185,7 +185,7 @@ PROPS = {
         "one evaluation = one seeded world (router, RP response mode, session state on/off) running 30-60 steps: raw authorization (success or error) with generated state/nonce x response type x mode x redirect URI shape, or a complete login through the real relying party. "
         "The values are seeded generation over Unicode and ASCII punctuation; only the pipeline is simulation. non-trivial = responses were decoded and the RP pipeline ran",
         {"runs": 40, "wall": 90}, {"runs": 8000, "wall": 1200},
-        {"quick": {"_runs": 400, "responses-decoded": 8000, "mode-form_post": 1500, "mode-fragment": 3000, "mode-query": 3000, "pipeline-completed": 3000, "storage-error-responses": 300, "storage-error-responses-without-state": 30, "sentinel": 500}, "thorough": {"_runs": 20000}},
+        {"quick": {"_runs": 400, "responses-decoded": 8000, "mode-form_post": 1500, "mode-fragment": 3000, "mode-query": 3000, "pipeline-completed": 3000, "storage-error-responses": 300, "storage-error-responses-without-state": 30, "sentinel": 500, "response-write-fails": 500}, "thorough": {"_runs": 20000}},
         "Seeded exploration; what the user agent decodes equals what the provider produced and the client sent (code, state, session_state, tokens, error, description), pre-existing query parameters survive, the form has exactly the expected DOM, and fault-free logins complete at the relying party.",
         "DESIGN.md section 4 C11"),
     "C19": flow(
@@ -194,7 +194,7 @@ PROPS = {
         "one evaluation = one seeded provider configuration: discovery per issuer host, probe of each advertised endpoint, 7 grant-type probes, a complete code flow with S256 (wrong verifier must fail) using only advertised endpoints, a signed request object when advertised, "
         "interleaved discovery for two hosts with host-derived issuers, a 14-row issuer-validation table and 5 hostile discovery documents. Apart from the host interleaving this is a configuration sweep (said plainly). distinct = distinct configuration",
         {"runs": 40, "wall": 90}, {"runs": 20000, "wall": 1200},
-        {"quick": {"_runs": 400, "discovery-fetched": 500, "grant-probes": 3000, "endpoint-probes": 3000, "flows-completed": 500, "issuer-table-rows": 5000, "hostile-documents": 2000, "interleaved-discoveries": 500, "request-object-probes": 100, "multi-tenant-worlds": 100},
+        {"quick": {"_runs": 400, "discovery-fetched": 500, "grant-probes": 3000, "endpoint-probes": 3000, "flows-completed": 500, "issuer-table-rows": 5000, "hostile-documents": 2000, "interleaved-discoveries": 500, "request-object-probes": 100, "multi-tenant-worlds": 100, "request-object-history-probes": 100},
          "thorough": {"_runs": 50000}},
         "Seeded exploration of configurations; the document's issuer equals the iss of issued tokens, advertised endpoints are issuer-relative (or the configured absolute URL) and served, grant types are advertised iff not answered unsupported_grant_type, advertised S256 and request objects are honoured, bad issuers are rejected at construction, foreign-issuer documents are rejected by client.Discover.",
         "DESIGN.md section 4 C19"),
@@ -205,7 +205,7 @@ PROPS = {
         "(strip, alg none, 18 HMAC-with-public-key encodings, re-sign, kid games, payload edits, truncation, segment counts, alg outside the allow-list, wrong key type, JSON general/flattened serialisation incl. smuggled payloads, embedded jwk). "
         "Epilogue (a history): the provider rotates and retires its key; the same long-lived verifiers must believe the new key's tokens and, having fetched the new set, reject the retired key's. distinct non-trivial = distinct (surface, operator, algorithm, key-set shape) delivered",
         {"runs": 30, "wall": 90}, {"runs": 6000, "wall": 1200},
-        {"quick": {"_runs": 300, "genuine-accepted": 1000, "tampered-rejected": 40000, "hmac": 10000, "json": 4000, "kidless-probes": 20, "_distinct": 3000, "rotation-epilogues": 150, "retired": 400}, "thorough": {"_runs": 20000}},
+        {"quick": {"_runs": 300, "genuine-accepted": 1000, "tampered-rejected": 40000, "hmac": 10000, "json": 4000, "kidless-probes": 20, "_distinct": 3000, "rotation-epilogues": 150, "retired": 400, "second-client-key-used": 250}, "thorough": {"_runs": 20000}},
         "Fault enumeration over the stated operator catalogue (complete per world): only the unmodified token (and a kid-less re-signature with exactly one candidate key) may be believed; the claims handed back are those of the signed payload; two fitting keys and no kid must be refused.",
         "DESIGN.md section 4 C02", level="fault_enumeration",
         level_note="Trusted: go-jose's primitives. The catalogue is the manipulation space; no schedule dimension."),
@@ -224,7 +224,7 @@ PROPS = {
         "one evaluation = one seeded isolation program of 25-45 steps (construct providers with custom/default endpoints, relying parties, resource servers; EndSession, RevokeToken, Userinfo, Discover, device polling) with the invariants checked after every step, "
         "plus seven seeded goroutine mixes (3-8 goroutines from a barrier, 4 processors) on one provider, one relying party (functions and HTTP handlers), one resource server + key set, concurrent construction (endpoints, issuer strategies) and error answers while the storage returns one reused error value, all in a -race build. distinct = distinct isolation program",
         {"runs": 12, "wall": 120}, {"runs": 3000, "wall": 1500},
-        {"quick": {"_runs": 150, "isolation-programs": 150, "race-mixes": 1000, "scheduled-concurrent-logins": 200, "sentinel-error-requests": 200}, "thorough": {"_runs": 10000}},
+        {"quick": {"_runs": 150, "isolation-programs": 150, "race-mixes": 1000, "scheduled-concurrent-logins": 200, "sentinel-error-requests": 200, "scheduled-concurrent-reads": 200}, "thorough": {"_runs": 10000}},
         "Isolation: deterministic and replayable. Races: the seed fixes the program, the interleaving is the Go runtime's; a report is a happens-before violation found by the race detector, replayed by re-running the seed under -race (in practice stable, in principle probabilistic).",
         "DESIGN.md section 4 C20",
         level_note="Trusted: the Go race detector. The race half does not control the schedule (the simulator's own channels would create the happens-before edges that hide races); stated in DESIGN.md."),
